@@ -19,6 +19,7 @@ def run(chk, prog, tier):
     PLo.prefix_after_rewrite_rule(chk, prog)
     from valib import pipeline as PL
     PL.encoder_idempotence_rule(chk, prog, PL.Roles(prog))
+    CR.mem_index_rule(chk, prog)                      # a third-position memory operand (VEX RVM) is found by whatever locates `the memory operand`
     nvec = sum(1 for r in tab.rows[3:-1] if vec(r))
     nvex = sum(1 for r in tab.rows[3:-1] if tab.dec[r.idx].get("vex"))
     chk.floor("vector rows", nvec, 105)
@@ -30,5 +31,5 @@ def run(chk, prog, tier):
         "encoding class (RM/MR/RVM/RMV), imm8 marker and, for VEX rows, pp/mmmmm/L/W are decoded from the cell "
         "values exactly as assemble_VEX consumes them and compared with the x86 reference and with sibling rows "
         "(legacy twin, 128/256 twin, MMX/SSE twin); the VEX descriptor macros are checked against the architectural "
-        "field positions. NOT decided: 2- vs 3-byte VEX choice, R/X/B inversion and vvvv for a given operand tuple.")
+        "field positions; a computed memory-operand position covers the third operand (MEMIDX). NOT decided: 2- vs 3-byte VEX choice, R/X/B inversion and vvvv for a given operand tuple.")
     chk.assumptions += ["ref/x86_reference.json transcribes the Intel SDM correctly"]
